@@ -205,7 +205,7 @@ def _as_unit(x_si, unit):
     return x_si / float(si.lookup(sc.Unit(unit))[0])
 
 
-SHAPES = ['scalar', '1d', '2d_broadcast', 'per_pixel_2d', 'binned']
+SHAPES = ['scalar', '1d', '2d_broadcast', 'per_pixel_2d', 'binned', 'transposed_2d']
 
 
 def _mk(values, dims, unit, dtype):
@@ -256,6 +256,9 @@ def gen_case(rng, ctx, kernel=None):
             dims, shape = (['tof'], (nt,)) if is_data else (['pixel'], (npix,))
         elif shape_cls == 'per_pixel_2d':
             dims, shape = (['pixel', 'tof'], (npix, nt)) if is_data else (['pixel'], (npix,))
+        elif shape_cls == 'transposed_2d':
+            # the data operand has its dims in the other order than the geometry operands (2-d, same labels)
+            dims, shape = (['tof', 'pixel'], (nt, npix)) if is_data else (['pixel', 'tof'], (npix, nt))
         else:  # binned
             dims, shape = ['pixel'], (npix,)
         n_el = int(np.prod(shape)) if shape else 1
